@@ -322,7 +322,7 @@ theorem year_of_era_range (doe : Int) (h0 : 0 ≤ doe) (h1 : doe < 146097) :
   omega
 
 /-- and the day of that year is in 0..365: the year-of-era formula never overshoots the day it was computed from (the step on which
-    `daysFromCivil ∘ civilFromDays = id` rests; that composition itself is not proved - `omega` does not finish on it) -/
+    `daysFromCivil ∘ civilFromDays = id` rests - `days_of_rendered_date` below) -/
 theorem day_of_year_range (doe : Int) (h0 : 0 ≤ doe) (h1 : doe < 146097) :
     let yoe := (doe - doe / 1460 + doe / 36524 - doe / 146096) / 365
     0 ≤ doe - (365 * yoe + yoe / 4 - yoe / 100) ∧ doe - (365 * yoe + yoe / 4 - yoe / 100) ≤ 365 := by
@@ -331,5 +331,71 @@ theorem day_of_year_range (doe : Int) (h0 : 0 ≤ doe) (h1 : doe < 146097) :
   have hf : doe / 36524 = 0 ∨ doe / 36524 = 1 ∨ doe / 36524 = 2 ∨ doe / 36524 = 3 ∨ doe / 36524 = 4 := by omega
   have hd : yoe / 100 = 0 ∨ yoe / 100 = 1 ∨ yoe / 100 = 2 ∨ yoe / 100 = 3 := by omega
   rcases hf with hf | hf | hf | hf | hf <;> rcases hd with hd | hd | hd | hd <;> omega
+
+/-- the calendar inverse: the date a day number is rendered as (Go's Time.Date, behind MarshalJSON / Format) counts back to that
+    day number (the parser's day count, behind `time_enc`), for every day whose year is not negative - the rendering of an instant and
+    the parsing of a dateTime literal are inverse on the date part, for all days and not for sampled ones. (Years below 0 are outside
+    `daysFromCivil`'s `Nat` domain and outside what `parseRFC3339` accepts: four digits.) -/
+theorem days_of_rendered_date (z : Int) (hy : 0 ≤ (civilFromDays z).1) :
+    daysFromCivil (civilFromDays z).1.toNat (civilFromDays z).2.1 (civilFromDays z).2.2 = z := by
+  unfold civilFromDays at *
+  simp only at *
+  generalize hera : (z + 719468) / 146097 = era at *
+  generalize hdoe : z + 719468 - era * 146097 = doe at *
+  have h0 : 0 ≤ doe ∧ doe < 146097 := by omega
+  have hyr := year_of_era_range doe h0.1 h0.2
+  have hdr := day_of_year_range doe h0.1 h0.2
+  simp only at hdr
+  generalize hyoe : (doe - doe / 1460 + doe / 36524 - doe / 146096) / 365 = yoe at *
+  generalize hdoy : doe - (365 * yoe + yoe / 4 - yoe / 100) = doy at *
+  clear hyoe
+  generalize hmp : (5 * doy + 2) / 153 = mp at *
+  have hmpr : 0 ≤ mp ∧ mp ≤ 11 := by omega
+  generalize hd : doy - (153 * mp + 2) / 5 + 1 = d at *
+  have hdr2 : 1 ≤ d ∧ d ≤ 31 := by omega
+  unfold daysFromCivil
+  simp only
+  by_cases hm : mp < 10
+  · rw [if_pos hm] at hy ⊢
+    have e0 : ¬ (mp + 3 ≤ 2) := by omega
+    have e1 : ¬ (mp + 3).toNat ≤ 2 := by omega
+    have e2 : (mp + 3).toNat > 2 := by omega
+    have e3 : (((mp + 3).toNat : Nat) : Int) = mp + 3 := by omega
+    have e4 : ((d.toNat : Nat) : Int) = d := by omega
+    rw [if_neg e0] at hy ⊢
+    simp only [if_neg e1, if_pos e2, e3, e4]
+    have e5 : (((yoe + era * 400).toNat : Nat) : Int) = yoe + era * 400 := by omega
+    rw [e5]
+    have e6 : (yoe + era * 400) / 400 = era := by omega
+    have e7 : yoe + era * 400 - era * 400 = yoe := by omega
+    have e8 : mp + 3 - 3 = mp := by omega
+    rw [e6, e7, e8]
+    omega
+  · rw [if_neg hm] at hy ⊢
+    have e0 : mp - 9 ≤ 2 := by omega
+    have e1 : (mp - 9).toNat ≤ 2 := by omega
+    have e2 : ¬ (mp - 9).toNat > 2 := by omega
+    have e3 : (((mp - 9).toNat : Nat) : Int) = mp - 9 := by omega
+    have e4 : ((d.toNat : Nat) : Int) = d := by omega
+    rw [if_pos e0] at hy ⊢
+    simp only [if_pos e1, if_neg e2, e3, e4]
+    have e5 : (((yoe + era * 400 + 1).toNat : Nat) : Int) = yoe + era * 400 + 1 := by omega
+    rw [e5]
+    have e9 : yoe + era * 400 + 1 - 1 = yoe + era * 400 := by omega
+    have e6 : (yoe + era * 400) / 400 = era := by omega
+    have e7 : yoe + era * 400 - era * 400 = yoe := by omega
+    have e8 : mp - 9 + 9 = mp := by omega
+    rw [e9, e6, e7, e8]
+    omega
+
+/-- so two different days are never rendered as the same date -/
+theorem rendered_date_injective (z1 z2 : Int) (h1 : 0 ≤ (civilFromDays z1).1) (h : civilFromDays z1 = civilFromDays z2) : z1 = z2 := by
+  have a := days_of_rendered_date z1 h1
+  have b := days_of_rendered_date z2 (h ▸ h1)
+  rw [h] at a
+  exact a.symm.trans b
+
+/-- not vacuous: day 0 is 1970-01-01, and a leap day before the epoch year's century is rendered in a non-negative year -/
+example : civilFromDays 0 = (1970, 1, 1) ∧ civilFromDays 11016 = (2000, 2, 29) ∧ 0 ≤ (civilFromDays (-719468)).1 := by decide
 
 end Gsp.Props.C04
